@@ -41,6 +41,58 @@ pub fn crc32c(data: &[u8]) -> u32 {
     crc ^ 0xFFFF_FFFF
 }
 
+/// Overwrite the four bytes `data[at..at + 4]` so that the CRC-32C of the whole of `data`
+/// becomes `target` (a transmission error that the checksum cannot see: two different
+/// payloads with the same CRC). The CRC is affine in those four bytes: 32 probes give the
+/// linear part, Gaussian elimination over GF(2) the solution. Returns false if `data` is
+/// too short (cannot happen otherwise: the map is a bijection).
+pub fn forge4(data: &mut [u8], at: usize, target: u32) -> bool {
+    if at + 4 > data.len() {
+        return false;
+    }
+    let put = |d: &mut [u8], x: u32| d[at..at + 4].copy_from_slice(&x.to_le_bytes());
+    put(data, 0);
+    let base = crc32c(data);
+    // columns of the linear map x -> crc(x) ^ base
+    let mut rows: Vec<(u32, u32)> = Vec::with_capacity(32); // (image, preimage)
+    for j in 0..32 {
+        put(data, 1 << j);
+        rows.push((crc32c(data) ^ base, 1 << j));
+    }
+    // basis of the image space indexed by leading bit, each with its preimage
+    let mut basis: [Option<(u32, u32)>; 32] = [None; 32];
+    for (img, pre) in rows {
+        let (mut i, mut p) = (img, pre);
+        while i != 0 {
+            let b = 31 - i.leading_zeros() as usize;
+            match basis[b] {
+                Some((bi, bp)) => {
+                    i ^= bi;
+                    p ^= bp;
+                }
+                None => {
+                    basis[b] = Some((i, p));
+                    break;
+                }
+            }
+        }
+    }
+    let mut want = target ^ base;
+    let mut x = 0u32;
+    while want != 0 {
+        let b = 31 - want.leading_zeros() as usize;
+        match basis[b] {
+            Some((bi, bp)) => {
+                want ^= bi;
+                x ^= bp;
+            }
+            None => return false,
+        }
+    }
+    put(data, x);
+    want == 0 && crc32c(data) == target
+}
+
 #[cfg(test)]
 mod tests {
     use super::*;
@@ -52,5 +104,14 @@ mod tests {
         assert_eq!(crc32c(b"123456789"), 0xE306_9283);
         let v: Vec<u8> = (0..1000u32).map(|i| (i * 7 + 3) as u8).collect();
         assert_eq!(crc32c(&v), crc32c_bitwise(&v));
+    }
+    #[test]
+    fn forged_payload_keeps_crc() {
+        let a: Vec<u8> = (0..300u32).map(|i| (i * 13 + 5) as u8).collect();
+        let mut b = a.clone();
+        b[17] ^= 0x40;
+        assert!(forge4(&mut b, 100, crc32c(&a)));
+        assert_ne!(a, b);
+        assert_eq!(crc32c(&a), crc32c_bitwise(&b));
     }
 }
